@@ -1,47 +1,57 @@
-import MesaModel.Proofs.CellSpaces
+import MesaModel.Proofs.CellDyn
+import MesaModel.Proofs.CellCollection
+import MesaModel.Proofs.CellHexMove
 /-!
 # C06 — cell spaces: `agent.cell` and `cell.agents` mirror each other; capacity; emptiness views
 
 Property theorems only (model: `Model/CellSpace.lean`, helper lemmas: `Proofs/CellSpace.lean`,
 `Proofs/CellSpaces.lean`).
 
-`Reachable sp s`: `s` is the state of the space `sp` after *any* finite history of operations
-(creating CellAgents / FixedAgents / Grid2DMovingAgents, `a.cell = c`, `a.cell = None`, `move_to`,
-`move_relative`, `Grid2DMovingAgent.move`, `remove`, switching the empty-cell search strategy,
-`select_random_empty_cell`, `select_random_cell`) — accepted and rejected calls alike, with any
-arguments (unknown agents, coordinates that are no cell, missing directions, full cells, …).
+`Reachable sp s`: `s` is the occupancy state and `sp` the space (with its connections as they are now) after
+*any* finite history, started on any well-formed freshly built space, of operations (creating CellAgents /
+FixedAgents / Grid2DMovingAgents, `a.cell = c`, `a.cell = None`, `move_to`, `move_relative`,
+`Grid2DMovingAgent.move`, `remove`, switching the empty-cell search strategy, `select_random_empty_cell`,
+`select_random_cell`) — accepted and rejected calls alike, with any arguments (unknown agents, coordinates
+that are no cell, missing directions, full cells, …) — *interleaved with connection edits*
+(`Cell.connect(other, key)` / `Cell.disconnect(other)` on cells of the space, after construction).
 `SpaceOK sp` holds for every grid (Moore / von Neumann in any dimension, hex), every `Network` and
-every `VoronoiGrid` of the model (`C06_spaces_wellformed`).
+every `VoronoiGrid` of the model (`C06_spaces_wellformed`) and is kept by every edit.
 -/
 namespace Mesa.Cells
 
-/-- states reachable from a freshly built space by any history -/
-def Reachable (sp : Space) (s : State) : Prop := ∃ ops : List Op, s = run sp (init sp) ops
+/-- states reachable from a freshly built well-formed space by any history of agent operations and connection
+    edits; `sp` is the space as the edits left it -/
+def Reachable (sp : Space) (s : State) : Prop :=
+  ∃ (sp0 : Space) (ops : List DOp), SpaceOK sp0 ∧ drun sp0 (init sp0) ops = (sp, s)
 
-theorem reachable_inv {sp : Space} (hsp : SpaceOK sp) {s : State} (h : Reachable sp s) : Inv sp s := by
-  obtain ⟨ops, rfl⟩ := h
-  exact run_inv hsp.closed (inv_init sp) ops
+theorem reachable_inv {sp : Space} (_hsp : SpaceOK sp) {s : State} (h : Reachable sp s) : Inv sp s := by
+  obtain ⟨sp0, ops, hsp0, he⟩ := h
+  have := (drun_inv hsp0 (inv_init sp0) ops).2.1
+  rw [he] at this
+  exact this
 
 theorem Reachable.step {sp : Space} {s : State} (h : Reachable sp s) (op : Op) :
     Reachable sp (step sp s op).1 := by
-  obtain ⟨ops, rfl⟩ := h
-  refine ⟨ops ++ [op], ?_⟩
-  have : ∀ (s0 : State) (l : List Op), run sp s0 (l ++ [op]) = (Mesa.Cells.step sp (run sp s0 l) op).1 := by
-    intro s0 l
-    induction l generalizing s0 with
-    | nil => rfl
-    | cons x l ih => exact ih _
-  exact (this _ _).symm
+  obtain ⟨sp0, ops, hsp0, he⟩ := h
+  refine ⟨sp0, ops ++ [.op op], hsp0, ?_⟩
+  rw [drun_append, he]
+  rfl
+
+/-- a history without connection edits on a well-formed space (the notion of the first version of this file) -/
+theorem reachable_of_run {sp : Space} (hsp : SpaceOK sp) (ops : List Op) : Reachable sp (run sp (init sp) ops) :=
+  ⟨sp, ops.map .op, hsp, drun_ops sp (init sp) ops⟩
 
 /-- All space types of the model are well-formed: grids of every kind, dimension vector, torus flag and
     capacity (hex: 2-D), networks on any edge list over nodes 0..n-1 (directed or not), Voronoi grids on
-    any triangle list over n centroids. -/
+    any triangle list over n centroids — with a constant capacity or with the default, area-based one. -/
 theorem C06_spaces_wellformed :
     (∀ k dims torus cap, (k = GridKind.hex → dims.length = 2) → SpaceOK (gridSpace k dims torus cap)) ∧
     (∀ directed n edges cap, (∀ e ∈ edges, e.1 < n ∧ e.2 < n) → SpaceOK (netSpace directed n edges cap)) ∧
-    (∀ n tris cap, (∀ t ∈ tris, t.1 < n ∧ t.2.1 < n ∧ t.2.2 < n) → SpaceOK (vorSpace n tris cap)) :=
+    (∀ n tris cap, (∀ t ∈ tris, t.1 < n ∧ t.2.1 < n ∧ t.2.2 < n) → SpaceOK (vorSpace n tris cap)) ∧
+    (∀ n tris areas, (∀ t ∈ tris, t.1 < n ∧ t.2.1 < n ∧ t.2.2 < n) → SpaceOK (vorSpaceAreas n tris areas)) :=
   ⟨fun k dims torus cap hk => gridSpace_ok k dims torus cap hk,
-   fun d n e cap he => netSpace_ok d n e cap he, fun n t cap ht => vorSpace_ok n t cap ht⟩
+   fun d n e cap he => netSpace_ok d n e cap he, fun n t cap ht => vorSpace_ok n t cap ht,
+   fun n t ar ht => vorSpaceAreas_ok n t ar ht⟩
 
 /-- Mirror: after any history, for every agent still in the model, the agent reports cell `c` iff `c` lists
     it; it is listed at most once there; and no other cell lists it.  (For *every* agent, in the model or
@@ -66,6 +76,20 @@ theorem C06_mirror {sp : Space} (hsp : SpaceOK sp) {s : State} (h : Reachable sp
 theorem C06_capacity {sp : Space} (hsp : SpaceOK sp) {s : State} (h : Reachable sp s) (c : Cid) (k : Nat)
     (hk : sp.cap c = some k) (hk1 : 1 ≤ k) : (s.occ c).length ≤ k :=
   (reachable_inv hsp h).cap c k hk (by omega)
+
+/-- The default `capacity_function` of `VoronoiGrid` (`round_float`): the i-th cell, of exact area `num/den`, gets
+    the capacity `k = int(500 · area)`, i.e. `k ≤ 500 · num/den < k + 1`, whatever `capacity` was passed to the
+    constructor; and after any history a cell with `k ≥ 1` holds at most `k` agents (each cell its own bound). -/
+theorem C06_voronoi_default_capacity (n : Nat) (tris : List (Nat × Nat × Nat)) (areas : List (Nat × Nat))
+    (ht : ∀ t ∈ tris, t.1 < n ∧ t.2.1 < n ∧ t.2.2 < n) (i num den : Nat) (ha : areas[i]? = some (num, den)) (hd : 0 < den) :
+    (vorSpaceAreas n tris areas).cap [(i : Int)] = some (roundFloat num den) ∧
+    roundFloat num den * den ≤ 500 * num ∧ 500 * num < (roundFloat num den + 1) * den ∧
+    (∀ s, Reachable (vorSpaceAreas n tris areas) s → 1 ≤ roundFloat num den →
+      (s.occ [(i : Int)]).length ≤ roundFloat num den) := by
+  have hcap : (vorSpaceAreas n tris areas).cap [(i : Int)] = some (roundFloat num den) := by
+    simp [vorSpaceAreas, ha]
+  refine ⟨hcap, (roundFloat_spec num den hd).1, (roundFloat_spec num den hd).2, fun s hr h1 => ?_⟩
+  exact (reachable_inv (vorSpaceAreas_ok n tris areas ht) hr).cap _ _ hcap (by omega)
 
 /-- Emptiness views agree with the truth after any history: `is_empty` is "no agents"; `is_full` is exactly
     "`add_agent` would refuse" (for capacities ≥ 1); on a grid the `empty` property layer / `cell.empty`
@@ -234,6 +258,136 @@ theorem C06_direction_map_generated :
 theorem C06_invariant_all_histories {sp : Space} (hsp : SpaceOK sp) (ops : List Op) :
     Inv sp (run sp (init sp) ops) := run_inv hsp.closed (inv_init sp) ops
 
+/-- Connection edits after construction (`Cell.connect` / `Cell.disconnect`): for every history of agent
+    operations interleaved with edits, on every well-formed space, the edited space is still well-formed (its
+    connections lead to its own cells), it has the cells, capacities and kind it was built with, the occupancy
+    state is `Reachable` (so every theorem of this file holds for it, with relative moves following the edited
+    connections) and satisfies the full invariant; histories without edits are the special case.  (An edit never
+    touches the occupancy state — by construction of `dstep`; the check compares the full observation after the
+    next operation.) -/
+theorem C06_histories_with_connection_edits {sp0 : Space} (hsp0 : SpaceOK sp0) (ops : List DOp) :
+    let r := drun sp0 (init sp0) ops
+    SpaceOK r.1 ∧ Reachable r.1 r.2 ∧ Inv r.1 r.2 ∧
+    r.1.cells = sp0.cells ∧ r.1.cap = sp0.cap ∧ r.1.isGrid = sp0.isGrid ∧
+    (∀ l : List Op, drun sp0 (init sp0) (l.map .op) = (sp0, run sp0 (init sp0) l)) := by
+  obtain ⟨h1, h2, h3, h4, h5⟩ := drun_inv hsp0 (inv_init sp0) ops
+  exact ⟨h1, ⟨sp0, ops, hsp0, rfl⟩, h2, h3, h4, h5, fun l => drun_ops sp0 (init sp0) l⟩
+
+/-- `Grid2DMovingAgent` direction names on a `HexGrid` (tables and `DIRECTION_MAP` as the source has them now):
+    the connection keys of a hex cell depend on the parity of its column `j = coordinate[1]`, so
+    (1) the cardinal names (n/s/e/w and synonyms) name a key at every cell, the names with a row step of −1 combined
+    with a column step (ne, nw, …) only in odd columns, those with a row step of +1 (se, sw, …) only in even columns;
+    (2) `move_relative(d)` / one step of `move` from cell (i, j) finds a cell iff `d` is in the table of j's parity
+    and the target — wrapped on a torus — is in bounds, and then it is that target;
+    (3) on a hex grid without wrapping a diagonal name never carries two steps (each diagonal step changes the
+    column parity): `move(name, k)` with k ≥ 2 raises "No cell in direction" from every cell and changes nothing. -/
+theorem C06_hex_direction_names :
+    (∀ j : Int, ∀ p ∈ Gen.directionMap,
+      ((p.2.1, p.2.2) ∈ hexTable j ↔
+        (p.2.1 = 0 ∨ p.2.2 = 0) ∨ (j % 2 ≠ 0 ∧ p.2.1 = -1) ∨ (j % 2 = 0 ∧ p.2.1 = 1))) ∧
+    (∀ (h w : Nat) (torus : Bool) (cap : Option Nat) (i j : Int) (d : Key) (c' : Cid),
+      connGet (gridSpace .hex [h, w] torus cap) [i, j] d = some c' ↔
+        ∃ di dj ni nj, d = [di, dj] ∧ c' = [ni, nj] ∧ (di, dj) ∈ hexTable j ∧
+          connect2d h w torus i j di dj = some (ni, nj)) ∧
+    (∀ (h w : Nat) (cap : Option Nat) (s : State) (a : Aid) (name : String) (k : Int) (di dj : Int) (c : Cid),
+      s.kinds[a]? = some .grid2d → dirVec name = some [di, dj] → di ≠ 0 → dj ≠ 0 → 2 ≤ k → s.cellOf a = some c →
+      step (gridSpace .hex [h, w] false cap) s (.gridMove a name k) = (s, .err .noCell)) := by
+  refine ⟨fun j => ?_, fun h w torus cap i j d c' => ?_, fun h w cap s a name k di dj c hk hd hi hj h2 hc => ?_⟩
+  · rcases Int.emod_two_eq j with h0 | h1
+    · simp only [hexTable, h0]; decide
+    · simp only [hexTable, h1]; decide
+  · show assocGet (gridConn .hex [h, w] torus [i, j]) d = some c' ↔ _
+    rw [assocGet_eq_some_iff (gridConn_keysNodup .hex [h, w] torus [i, j])]
+    exact mem_hexConn h w torus i j d c'
+  · have hk2 : k.toNat = (k.toNat - 2) + 2 := by omega
+    have hw := hex_diag_walk h w cap [di, dj] di dj rfl hi hj (k.toNat - 2) c
+    rw [← hk2] at hw
+    have hk0 : ¬ k ≤ 0 := by omega
+    simp only [step, hk, hd, hk0, if_false, hc, hw]
+
+/-! ### the `CellCollection` API (`all_cells`, `empties`, neighbourhoods, selections) -/
+
+/-- The agent views of a collection mirror `agent.cell`: after any history, for every collection of distinct
+    cells — `all_cells`, `empties`, every (memoised) neighbourhood at every radius, every selection out of these —
+    `coll.agents` is the cells' agent lists *as they are now*, lists nobody twice, lists exactly the agents listed
+    by a cell of the collection, i.e. (for agents still in the model) exactly those whose `cell` is in the
+    collection; `coll[cell]` answers only for cells of the collection, with a duplicate-free list of agents that all
+    report that cell and all belong to `coll.agents`. -/
+theorem C06_collection_views {sp : Space} (hsp : SpaceOK sp) {s : State} (h : Reachable sp s) :
+    (∀ cells : Coll, cells.Nodup →
+      (collAgents s cells).Nodup ∧
+      (∀ a, a ∈ collAgents s cells ↔ ∃ c ∈ cells, a ∈ s.occ c) ∧
+      (∀ a, a ∈ s.registry → (a ∈ collAgents s cells ↔ ∃ c ∈ cells, s.cellOf a = some c)) ∧
+      (∀ c l, collGet s cells c = some l →
+        c ∈ cells ∧ l.Nodup ∧ ∀ a ∈ l, s.cellOf a = some c ∧ a ∈ collAgents s cells)) ∧
+    (sp.cells.Nodup ∧ (empties sp s).Nodup ∧
+      (∀ r ic c, (nbhd (nbOfConn sp.conn) r ic c).Nodup) ∧
+      (∀ f am (cells : Coll), cells.Nodup → (select f am cells).Nodup)) := by
+  have hi := reachable_inv hsp h
+  refine ⟨fun cells hnd => ⟨collAgents_nodup hi hnd, mem_collAgents s cells, fun a hr => ?_, fun c l hg => ?_⟩,
+    hsp.nodup, hsp.nodup.filter _, fun r ic c => nbhd_nodup _ r ic c,
+    fun f am cells hnd => (select_sublist f am cells).nodup hnd⟩
+  · rw [mem_collAgents]
+    constructor
+    · rintro ⟨c, hc, hm⟩; exact ⟨c, hc, hi.mem_cell a c hm⟩
+    · rintro ⟨c, hc, hco⟩
+      rcases hi.cell_mem a c hco with h1 | ⟨_, h2⟩
+      · exact ⟨c, hc, h1⟩
+      · exact absurd hr h2
+  · unfold collGet at hg
+    split at hg
+    · rename_i hc
+      simp only [Option.some.injEq] at hg
+      subst hg
+      exact ⟨hc, hi.nodup c, fun a ha => ⟨hi.mem_cell a c ha, (mem_collAgents s cells a).mpr ⟨c, hc, ha⟩⟩⟩
+    · cases hg
+
+/-- `select(filter_func, at_most)` on any collection, for every filter function and every bound: the result is
+    the matching cells in the collection's order, cut after the first `limit` of them, where `limit` (`AtMost.limit`)
+    is the int itself (nothing for an int ≤ 0), `int(len * at_most)` for a float ≤ 1 and the float rounded up above 1;
+    so it is a sub-collection in the same order, every cell in it passes the filter, it never holds more than `limit`
+    cells, without a bound it holds *every* matching cell; and `space.empties` is `all_cells.select(is_empty)`. -/
+theorem C06_select_spec (f : Option (Cid → Bool)) (am : AtMost) (cells : Coll) :
+    (select f am cells = match am.limit cells.length with
+      | none => cells.filter (selFilter f)
+      | some l => (cells.filter (selFilter f)).take l) ∧
+    (select f am cells).Sublist cells ∧
+    (∀ c ∈ select f am cells, c ∈ cells ∧ selFilter f c = true) ∧
+    (∀ l, am.limit cells.length = some l → (select f am cells).length ≤ l) ∧
+    (∀ c, c ∈ select f .inf cells ↔ c ∈ cells ∧ selFilter f c = true) ∧
+    (∀ sp s, empties sp s = select (some (isEmpty s)) .inf sp.cells) := by
+  refine ⟨select_eq f am cells, select_sublist f am cells, fun c hc => select_mem_filter f am cells hc,
+    fun l hl => select_length_le f am cells hl, fun c => ?_, fun sp s => ?_⟩
+  · rw [select_eq]; simp [AtMost.limit, List.mem_filter]
+  · rw [select_eq]; simp [AtMost.limit, empties, selFilter]
+
+/-- `select_random_cell` / `select_random_agent` on any collection (C01: which draws, over which population):
+    the population is the collection's cell list / its chained agent lists, in order; on an empty population
+    IndexError is raised and no draw is made; otherwise exactly one draw `d` is consumed — whatever else the
+    generator holds — and the element at position `d % len` is returned; a selected agent is listed by a cell
+    of the collection and (after any history) reports that cell. -/
+theorem C06_select_random_spec {sp : Space} (hsp : SpaceOK sp) {s : State} (h : Reachable sp s) (cells : Coll)
+    (draws : List Nat) :
+    (selectRandomCell cells draws = .err .index ↔ cells = []) ∧
+    (selectRandomAgent s cells draws = .err .index ↔ collAgents s cells = []) ∧
+    (∀ c pos used, selectRandomCell cells draws = .ok c pos used →
+      used = 1 ∧ cells[pos]? = some c ∧ c ∈ cells ∧ ∃ d ds, draws = d :: ds ∧ pos = d % cells.length) ∧
+    (∀ a pos used, selectRandomAgent s cells draws = .ok a pos used →
+      used = 1 ∧ (collAgents s cells)[pos]? = some a ∧
+      (∃ d ds, draws = d :: ds ∧ pos = d % (collAgents s cells).length) ∧
+      ∃ c ∈ cells, a ∈ s.occ c ∧ s.cellOf a = some c) ∧
+    (∀ d ds, cells ≠ [] → ∃ c, selectRandomCell cells (d :: ds) = .ok c (d % cells.length) 1) ∧
+    (∀ d ds, collAgents s cells ≠ [] →
+      ∃ a, selectRandomAgent s cells (d :: ds) = .ok a (d % (collAgents s cells).length) 1) := by
+  have hi := reachable_inv hsp h
+  refine ⟨pick_err_index, pick_err_index, fun c pos used hp => pick_ok hp, fun a pos used hp => ?_,
+    fun d ds hne => ?_, fun d ds hne => ?_⟩
+  · obtain ⟨h1, h2, h3, h4⟩ := pick_ok hp
+    obtain ⟨c, hc, hm⟩ := (mem_collAgents s cells a).mp h3
+    exact ⟨h1, h2, h4, c, hc, hm, hi.mem_cell a c hm⟩
+  · obtain ⟨x, _, hx⟩ := pick_cons hne d ds; exact ⟨x, hx⟩
+  · obtain ⟨x, _, hx⟩ := pick_cons hne d ds; exact ⟨x, hx⟩
+
 /-! ### non-vacuity -/
 
 -- a 2×2 Moore torus with capacity 1: place, rejected move into a full cell (S11 witness: nothing changes),
@@ -248,5 +402,46 @@ example : (run sp0 (init sp0) ops0).cellOf 0 = some [0, 0] ∧ (run sp0 (init sp
 example : (step sp0 (run sp0 (init sp0) ops0) (.setCell 0 (some [0, 0]))).2 = .ok := by decide
 example : (step sp0 (run sp0 (init sp0) ops0) (.randEmpty [0, 3, 1])).2 = .okCell [0, 1] := by decide
 example : (step sp0 (run sp0 (init sp0) ops0) (.gridMove 0 "N" 1)).2 = .err .attr := by decide
+
+-- connection edits: a long-range connection added to cell (0,0) of a 3×3 grid under a new key is followed by
+-- `move_relative`; after `disconnect` the key is gone again; edits to coordinates that are no cells are rejected
+private def sp1 : Space := gridSpace .vn [3, 3] false none
+private def dops1 : List DOp :=
+  [.op (.new .cell), .op (.setCell 0 (some [0, 0])), .connect [0, 0] [2, 2] (some [7, 7]), .op (.moveRel 0 [7, 7])]
+example : SpaceOK sp1 := gridSpace_ok _ _ _ _ (by simp)
+example : (drun sp1 (init sp1) dops1).2.cellOf 0 = some [2, 2] ∧ (drun sp1 (init sp1) dops1).2.occ [2, 2] = [0] := by decide
+example : (step sp1 (run sp1 (init sp1) [.new .cell, .setCell 0 (some [0, 0])]) (.moveRel 0 [7, 7])).2 = .err .noCell := by decide
+example : (dstep (drun sp1 (init sp1) dops1).1 (drun sp1 (init sp1) dops1).2 (.connect [0, 0] [3, 3] none)).2 = .err .key := by decide
+example : ((drun sp1 (init sp1) (dops1 ++ [.disconnect [0, 0] [2, 2]])).1.conn [0, 0]).map (·.1) = [[0, 1], [1, 0]] := by decide
+example : (editSp (vorSpace 3 [(0, 1, 2)] none) (.connect [0] [1] none)).2 = .err .type := by decide
+
+-- default Voronoi capacities: areas 1/250 and 7/1000 give capacities 2 and 3; the third agent is refused by cell 0
+private def vd : Space := vorSpaceAreas 3 [(0, 1, 2)] [(1, 250), (7, 1000), (5, 1)]
+private def vops : List Op := [.new .cell, .new .cell, .new .cell, .setCell 0 (some [0]), .setCell 1 (some [0])]
+example : vd.cap [0] = some 2 ∧ vd.cap [1] = some 3 ∧ vd.cap [2] = some 2500 := by decide
+example : (step vd (run vd (init vd) vops) (.setCell 2 (some [0]))).2 = .err .full ∧
+    (step vd (run vd (init vd) vops) (.setCell 2 (some [1]))).2 = .ok ∧ isFull vd (run vd (init vd) vops) [0] = true := by decide
+
+-- hex: "ne" is a key in odd columns only; two diagonal steps are impossible, one is fine; cardinal names work everywhere
+private def hx : Space := gridSpace .hex [4, 4] false none
+private def hops : List Op := [.new .grid2d, .setCell 0 (some [2, 1])]
+example : dirVec "NE" = some [-1, 1] ∧ (step hx (run hx (init hx) hops) (.gridMove 0 "NE" 1)).2 = .ok ∧
+    (step hx (run hx (init hx) hops) (.gridMove 0 "NE" 1)).1.cellOf 0 = some [1, 2] ∧
+    (step hx (run hx (init hx) hops) (.gridMove 0 "NE" 2)).2 = .err .noCell ∧
+    (step hx (run hx (init hx) hops) (.gridMove 0 "se" 1)).2 = .err .noCell ∧
+    (step hx (run hx (init hx) hops) (.gridMove 0 "north" 2)).1.cellOf 0 = some [0, 1] := by decide
+-- … whereas on a torus of odd width the wrap keeps the parity and two diagonal steps can succeed
+example : walk (gridSpace .hex [4, 3] true none) [1, 1] 2 [0, 2] = some [2, 1] := by decide
+
+-- collections on the 2×2 torus of `ops0` (agents 0 at (0,0), 1 at (1,1), capacity 1)
+private def s0 : State := run sp0 (init sp0) ops0
+example : Reachable sp0 s0 := reachable_of_run (gridSpace_ok _ _ _ _ (by simp)) ops0
+example : collAgents s0 sp0.cells = [0, 1] ∧ empties sp0 s0 = [[0, 1], [1, 0]] := by decide
+example : select (some (isFull sp0 s0)) (.frac 1 2) sp0.cells = [[0, 0], [1, 1]] ∧
+    select (some (isFull sp0 s0)) (.frac 1 4) sp0.cells = [[0, 0]] ∧ select none (.int (-1)) sp0.cells = [] ∧
+    select none (.frac 5 2) sp0.cells = [[0, 0], [0, 1], [1, 0]] ∧ selectIsSelf none .inf = true := by decide
+example : selectRandomCell (empties sp0 s0) [7, 3] = .ok [1, 0] 1 1 ∧ selectRandomAgent s0 sp0.cells [6] = .ok 0 0 1 ∧
+    selectRandomAgent s0 (empties sp0 s0) [6] = .err .index ∧ selectRandomCell sp0.cells [] = .err .script := by decide
+example : selectRandomAgent s0 (nbhd (nbOfConn sp0.conn) 1 false [0, 0]) [5] = .ok 1 0 1 := by decide
 
 end Mesa.Cells
